@@ -24,7 +24,9 @@ def wf_ens(s='self'):
 def copy_callee():
     """Memory::Copy as a callee: the contract proved in the Memory::Copy jobs, instantiated at ghost g_c; regions must be separate objects"""
     return dict(requires=['size == 0 || (__CPROVER_w_ok(to, size) && __CPROVER_r_ok(from, size))',
-                          'size == 0 || !__CPROVER_same_object(to, from)'],
+                          # separate objects, or disjoint ranges of one object (both situations are enforced against Memory::Copy's body)
+                          'size == 0 || !__CPROVER_same_object(to, from) || __CPROVER_POINTER_OFFSET(to) >= __CPROVER_POINTER_OFFSET(from) + (long long)size || '
+                          '__CPROVER_POINTER_OFFSET(from) >= __CPROVER_POINTER_OFFSET(to) + (long long)size'],
                 ensures=['g_c < size ==> ((const char *)to)[g_c] == ((const char *)from)[g_c]'],
                 assigns=['size != 0: __CPROVER_object_upto(to, size)'])
 
